@@ -400,6 +400,19 @@ def resolve(parsed, kernels):
                         r"\(", a):
                     raise Unparsed("unmapped data argument " + a)
             meta_fields = []
+            # Kernels whose updated arguments ALL have GH_WRITE access and
+            # include a field on a continuous (or any_space) space: the guide
+            # ("Halo Exchange Logic" case 2) and the repository's own test
+            # test_write_cont_dirty treat them as not reading annexed DoFs at
+            # all.  Ambiguous for the READ arguments, so the weaker
+            # requirement is used (no annexed requirement over owned cells).
+            upd = [a for a in k["args"] if a["access"] not in ("READ",)
+                   and a["type"] != "gh_scalar"]
+            all_write = bool(upd) and all(a["access"] == "WRITE"
+                                          for a in upd)
+            special = all_write and any(
+                a["type"] == "gh_field" and continuity(a["space"]) == "cont"
+                for a in upd)
             for a in k["args"]:
                 if a["type"] != "gh_field":
                     continue
@@ -411,7 +424,9 @@ def resolve(parsed, kernels):
                     meta_fields.append(comp)
                     accs.append({"field": comp, "access": a["access"],
                                  "cont": c, "space": a["space"],
-                                 "stencil": a["stencil"]})
+                                 "stencil": a["stencil"],
+                                 "gh_write_cont_kernel": special,
+                                 "all_updates_gh_write": all_write})
             if text_fields != meta_fields:
                 raise Unparsed("field arguments differ: text %s metadata %s"
                                % (text_fields, meta_fields))
